@@ -4,12 +4,16 @@ pub mod gen {
     include!(concat!(env!("OUT_DIR"), "/conjure/mod.rs"));
 }
 mod c04;
+mod c06l;
 mod c09;
+mod c18l;
 mod c19;
 mod handler;
 mod loopback;
 mod macros;
 mod reqs;
+#[path = "../../httpdirect/src/script.rs"]
+mod script;
 
 use vcommon::{Args, Report};
 
@@ -18,7 +22,9 @@ fn main() {
     vcommon::quiet_panics();
     let report: Report = match args.property.as_str() {
         "C04" => c04::run(&args),
+        "C06" => c06l::run(&args),
         "C09" => c09::run(&args),
+        "C18" => c18l::run(&args),
         "C19" => c19::run(&args),
         other => panic!("httploop: unknown property {}", other),
     };
